@@ -283,6 +283,33 @@ func runNoSentinel(p *harness.Proxy, binary bool, cmds []wire.Cmd) c08Outcome {
 	}
 	defer cl.Close()
 	cl.Watchdog = 8 * time.Second
+	// A trailing quiet store has no reply to wait for: before the connection is dropped (and the
+	// next case resets the backends) a sentinel makes sure the server has finished with it.
+	// Without this a loaded machine let the last quiet set of one case land in the next case's
+	// freshly reset stores ("more values than the model", seen once in a thorough sweep).
+	defer func() {
+		drain := wire.Cmd{Op: "noop", Opaque: 0xEEEE0004}
+		if !binary {
+			drain = wire.Cmd{Op: "version"}
+		}
+		if cl.Send(cl.Encode(drain)) != nil {
+			return
+		}
+		cl.Conn.SetReadDeadline(time.Now().Add(10 * time.Second))
+		for {
+			if binary {
+				f, err := wire.ReadFrame(cl.R)
+				if err != nil || f.Opaque == 0xEEEE0004 {
+					return
+				}
+			} else {
+				it, err := wire.ReadItem(cl.R)
+				if err != nil || (!it.IsValue && strings.HasPrefix(it.Line, "VERSION")) {
+					return
+				}
+			}
+		}
+	}()
 	m := model.New(p.L1.Now)
 	for i, c := range cmds {
 		// keys that live only in L2 make the L1/L2 orchestrators answer out of key order
